@@ -47,6 +47,9 @@ def floatOps (op : String) (args : List String) : Option String :=
       let closed := c == "1"
       let sg ← (if sg == "none" then some none else sg.toNat?.map some)
       pure (showOutcome showPts (cellToBoundary n closed sg))
+  | "cell_to_boundary_default", [a] => do
+      let n ← a.toNat?
+      pure (showOutcome showPts (cellToBoundary n true none))
   | "contains", [a, lo, la] => do
       let n ← a.toNat?; let lo ← parseF? lo; let la ← parseF? la
       pure (showOutcome showF (deserialize n >>= fun c => cellContainsPoint c lo la))
